@@ -31,8 +31,9 @@ m = {
     "hooks": {
         "guard": "cargo feature verif-hooks",
         "enable": "harness links succinctly with features std,verif-hooks (path dependency on /repo); CLI built with --features cli,verif-hooks",
-        "baseline_off_cmd": "cd /repo && cargo nextest run --workspace --no-fail-fast --test-threads 8 --offline || cargo test --workspace --no-fail-fast --offline",
+        "baseline_off_cmd": "cd /repo && if cargo nextest --version >/dev/null 2>&1; then cargo nextest run --workspace --no-fail-fast --test-threads 8 --offline; else cargo test --workspace --no-fail-fast --offline; fi",
         "source_commits": hooks_commits,
+        "fix_commits": getattr(registry, "FIX_COMMITS", []),
         "add_only": True,
     },
     "engines": [
@@ -43,7 +44,7 @@ m = {
     ],
     "checks": checks,
     "not_applicable": na,
-    "notes": "All checks: ./check <ID> --tier quick|thorough. Known findings live in known_findings.json; see DESIGN.md.",
+    "notes": "All checks: ./check <ID> --tier quick|thorough (replay: ./check <ID> --replay <file>). Known findings: known_findings.json + known.d/*.json (FINDINGS.md is the generated table). /repo carries 2 hook commits (feature verif-hooks, off by default) and 20 'fix:' commits, listed in py/registry.py and DESIGN.md 7.1; the whole 4190-test suite passes on HEAD with the feature off. Seeded property-breaking changes: seeded/<id>/ and seeded/RESULTS.md. VERIF_REPO=<worktree> points any check at a scratch copy of the repository.",
 }
 json.dump(m, open(os.path.join(ROOT, "MANIFEST.json"), "w"), indent=1)
 print("checks:", len(checks), "not_applicable:", len(na))
